@@ -1,6 +1,8 @@
 (* C16 driver.
    case: (ID KIND (links (u r d)...) (policy (f...)...) (names n...) (domains d...) (perms (f...)...))
    KIND = plain | dom.  For `plain` the only domain is "" and the Go calls pass no domain.
+   An optional trailing (hist call...) item names the rbac_api calls that led the real enforcer to
+   the listed state (history mode); the model is a function of the listed rules and ignores it.
    Prints, from the extracted model Rbac.v, exactly the lines harness/c16.go prints from the
    implementation: ID <TAB> step <TAB> value. *)
 open Common
@@ -24,7 +26,7 @@ let field tag x =
 let () =
   Sx.iter_stdin (fun c ->
     match Sx.list c with
-    | [id; kind; links; policy; names; domains; perms] ->
+    | id :: kind :: links :: policy :: names :: domains :: perms :: ([] | [_]) ->
         let id = Sx.atom id in
         let dom = (match Sx.atom kind with "plain" -> false | "dom" -> true | _ -> failwith "bad kind") in
         let k = if dom then Rbac.WithDomains else Rbac.Plain in
